@@ -598,3 +598,32 @@ def suite_user_code(scenario, site):
         s.fail({'site': site, 'class': scenario, 'input': pr['input'], 'observed': pr['observed'], 'required': pr['required']})
     s.sample({'scenario': scenario})
     return s
+
+
+def suite_races(scenarios, runs):
+    """the `races` suite: every scenario of harness/race_child.py in `runs` fresh processes started together (a race at the first use of something in a process has one
+    chance per process; a loaded machine changes the interleavings, more processes give more chances)"""
+    import subprocess
+    s = Suite('races')
+    env = dict(os.environ, UDS_REPO=REPO)
+    child = os.path.join(ROOT, 'harness', 'race_child.py')
+    for what in scenarios:
+        procs = [subprocess.Popen([sys.executable, child, what], stdout=subprocess.PIPE, stderr=subprocess.PIPE, text=True, env=env) for _ in range(runs)]
+        reported = False
+        for run, p in enumerate(procs):
+            try:
+                out, err = p.communicate(timeout=300)
+            except subprocess.TimeoutExpired:
+                p.kill()
+                out, err = '', 'no result within 300 s'
+            s.evaluations += 1
+            s.distinct.add('%s:%d' % (what, run))
+            try:
+                problems = json.loads(out.strip().split('\n')[-1])
+            except Exception:  # noqa
+                problems = [{'input': 'race_child.py ' + what, 'observed': 'child failed: ' + (err or out)[-500:], 'required': 'the scenario runs to its end'}]
+            if problems and not reported:
+                reported = True
+                for pr in problems[:3]:
+                    s.fail({'site': 'threads (%s)' % what, 'input': pr['input'], 'observed': pr['observed'], 'required': pr['required']})
+    return s
